@@ -909,6 +909,26 @@ var witnesses = []witness{
 		}
 		return ""
 	}},
+	{id: "F95", props: []string{"C08", "C20"}, what: "a value given for the hidden _rowid_ of a table without PRIMARY KEY was silently replaced by a generated one", run: func(w *wEnv) string {
+		w.mk("t", "a, b", sqlh.TableOpts{})
+		if r := w.x("insert into t(_rowid_, a, b) values ('mykey', 1, 0)"); !strings.HasPrefix(r, "ERR") {
+			return "insert with a _rowid_: " + r
+		}
+		if r := w.x("insert into t(a, b) values (2, 0)"); r != "ok" {
+			return "insert without a _rowid_: " + r
+		}
+		return wantEq("rows", w.q("select count(*) from t"), i(1))
+	}},
+	{id: "F96", props: []string{"C20"}, what: "PRIMARY KEY(ID) did not find the column id", run: func(w *wEnv) string {
+		if r := w.mk("t", "id, name, PRIMARY KEY(ID)", sqlh.TableOpts{}); r != "ok" {
+			return "create: " + r
+		}
+		w.x("insert into t values (1,'x')")
+		if r := w.x("insert into t values (1,'y')"); !strings.HasPrefix(r, "ERR:constraint") {
+			return "second insert of the key: " + r
+		}
+		return wantEq("key column", w.q("select name from pragma_table_info('t') where pk"), t("id"))
+	}},
 	{id: "F74", props: []string{"C15", "C02", "C06"}, what: "a write_time outside 1677..2262 was accepted and wrapped around", run: func(w *wEnv) string {
 		for _, ts := range []string{"9999-12-31 23:59:59", "2262-04-12 00:00:00", "1600-01-01 00:00:00", "1000-01-01 00:00:00"} {
 			if r := w.x("update s3db_conn set write_time=?", ts); !strings.HasPrefix(r, "ERR") {
@@ -1084,7 +1104,7 @@ var witnesses = []witness{
 		}
 		return wantEq("rows", w.q("select count(*) from c"), i(2))
 	}},
-	{id: "F81", props: []string{"C03", "C09"}, known: true, what: "an open that has listed the current version but not yet loaded it, while another connection commits and vacuums with a cutoff in the future: the listed version is in neither place any more and the opener shows an empty table", run: func(w *wEnv) string {
+	{id: "F81", props: []string{"C03", "C09"}, what: "an open that has listed the current version but not yet loaded it, while another connection commits and vacuums with a cutoff in the future: the listed version is in neither place any more and the opener shows an empty table", run: func(w *wEnv) string {
 		w.mk("w", "a primary key, b", sqlh.TableOpts{})
 		for k := 1; k <= 10; k++ {
 			w.x("insert into w values(?,'r')", k)
